@@ -21,7 +21,8 @@ CLAUSE = ("memory safety and termination shapes of the service decoder (20 ancho
           "(direct stores, memset/memcpy, struct copies; no escaping address); data-dependent assertions cannot fail; shift "
           "amounts stay inside the operand width; the recursive call cycles are exactly the confirmed, guarded ones; cache "
           "page and network references are released on every path; a freed heap block is not used again; list nodes are "
-          "initialised before they are linked.")
+          "initialised before they are linked; (RF-TERM) the cache page walk is entered only with a non-empty network and "
+          "leaves at its second wrap-around in both directions.")
 NOT_DECIDED = ("termination of data-dependent loops in general, signed overflow of accumulating counters, unbounded growth "
                "other than through reference leaks, the content of what is decoded; subscripts of pointer parameters whose "
                "extent is a caller contract (listed per site in the evidence as trusted, with the contract).")
@@ -160,6 +161,10 @@ def run(ctx, run):
     _heap(ctx, run)
     _shifts(ctx, run)
     _recursion(ctx, run)
+    # termination of the cache page walk (rule shared with C17): entered only with a non-empty
+    # network, and a second wrap-around leaves it in both directions
+    from . import C17
+    C17._walk(ctx, run, P.need("_vbi_cache_foreach_page", "src/cache.c"))
     _references(ctx, run)
     _page_sizes(ctx, run)
     _no_self_deadlock(ctx, run)
